@@ -8,7 +8,10 @@
 
 package logic
 
-import "github.com/q191201771/lal/pkg/hls"
+import (
+	"github.com/q191201771/lal/pkg/base"
+	"github.com/q191201771/lal/pkg/hls"
+)
 
 func (group *Group) IsHlsMuxerAlive() bool {
 	group.mutex.Lock()
@@ -19,6 +22,12 @@ func (group *Group) IsHlsMuxerAlive() bool {
 // startHlsIfNeeded 必要时启动hls
 func (group *Group) startHlsIfNeeded() {
 	if !group.config.HlsConfig.Enable && !group.config.HlsConfig.EnableHttps {
+		return
+	}
+
+	if !base.IsStreamNameSafeAsPathItem(group.streamName) {
+		Log.Errorf("[%s] hls disabled for this stream, stream name can not be used as a directory name. streamName=%s",
+			group.UniqueKey, group.streamName)
 		return
 	}
 
